@@ -745,8 +745,28 @@ def run_property(prop, body, tier, seed):
     ses = Session(prop, tier=tier, seed=seed)
     try:
         body(ses)
-    except Exception:
-        ses.crashed = traceback.format_exc()
+    except Exception as e:
+        tb = traceback.extract_tb(e.__traceback__)
+        repo = None
+        try:
+            import ceos_alos2
+
+            repo = os.path.dirname(os.path.abspath(ceos_alos2.__file__)) + os.sep
+        except Exception:  # noqa: BLE001
+            pass
+        native_run = [f for f in tb if "/pyvc/" in f.filename.replace(os.sep, "/")]
+        if repo and tb and os.path.abspath(tb[-1].filename).startswith(repo) and not any(
+                f.filename.endswith(("interp.py", "models.py", "ops.py", "layout.py")) for f in native_run):
+            # the code under test raised natively inside a bounded scenario (not under the interpreter): that is an outcome of the
+            # scenario - on the unchanged tree no scenario raises - not a defect of the checker
+            text = "".join(traceback.format_exception_only(type(e), e)).strip()[:300]
+            where = f"{os.path.relpath(tb[-1].filename, repo)}:{tb[-1].lineno} in {tb[-1].name}"
+            ses.bounded_check(f"{prop}/bounded/scenario-completes-without-exception", False, bound="the check's bounded scenarios",
+                              function=where, detail={"exception": text, "raised_at": where},
+                              replay=lambda m: {"confirmed": True, "input": "the scenario the check was running (see traceback)",
+                                                "observed": text, "expected": "no exception", "traceback": traceback.format_exc()[-1500:]})
+        else:
+            ses.crashed = traceback.format_exc()
     code = ses.finish()
     sys.stdout.flush()
     return code
